@@ -177,9 +177,10 @@ type c17Event struct {
 
 func (w *c17World) events() []c17Event {
 	var ev []c17Event
-	mkCreateDB := func(n string) c17Event {
-		return c17Event{"CREATE DATABASE " + n, func(w *c17World) bool {
-			err := w.exec("CREATE DATABASE " + n)
+	mkCreateDB := func(spelling string) c17Event {
+		n := strings.ToLower(spelling) // database names are case-insensitive (one directory per lower-cased name)
+		return c17Event{"CREATE DATABASE " + spelling, func(w *c17World) bool {
+			err := w.exec("CREATE DATABASE " + spelling)
 			_, exists := w.dbs[n]
 			if pe, ok := err.(*panicErr); ok {
 				w.fail("panic", "CREATE DATABASE %s: %v", n, pe.val)
@@ -199,12 +200,13 @@ func (w *c17World) events() []c17Event {
 			return true
 		}}
 	}
-	mkUse := func(n string) c17Event {
-		return c17Event{"USE " + n, func(w *c17World) bool {
+	mkUse := func(spelling string) c17Event {
+		n := strings.ToLower(spelling)
+		return c17Event{"USE " + spelling, func(w *c17World) bool {
 			if w.sess.RelationService != nil {
 				w.useWhileOpen = true
 			}
-			err := w.exec("USE " + n)
+			err := w.exec("USE " + spelling)
 			_, exists := w.dbs[n]
 			if pe, ok := err.(*panicErr); ok {
 				w.fail("panic", "USE %s: %v", n, pe.val)
@@ -226,7 +228,7 @@ func (w *c17World) events() []c17Event {
 			return true
 		}}
 	}
-	ev = append(ev, mkCreateDB("a"), mkCreateDB("b"), mkUse("a"), mkUse("b"), mkUse("nosuch"))
+	ev = append(ev, mkCreateDB("a"), mkCreateDB("B"), mkUse("a"), mkUse("b"), mkUse("nosuch"), mkUse("A"), mkUse("B"))
 	ev = append(ev, c17Event{"CREATE TABLE t", func(w *c17World) bool {
 		err := w.exec("CREATE TABLE t (a int, c varchar(255))")
 		if pe, ok := err.(*panicErr); ok {
@@ -302,7 +304,7 @@ func runC17(env *lib.Env, rep *lib.Report) {
 	seeds := []string{"empty", "a-with-row+b"}
 	rep.Bounds["depth"] = depth
 	rep.Bounds["seeds"] = seeds
-	rep.Bounds["events"] = "CREATE DATABASE a|b, USE a|b|nosuch, CREATE TABLE t, INSERT, TICK of every live store (including abandoned ones), RESTART; SHOW DATABASES and read-back are checked after every event"
+	rep.Bounds["events"] = "CREATE DATABASE a|B, USE a|b|A|B|nosuch (names are case-insensitive), CREATE TABLE t, INSERT, TICK of every live store (including abandoned ones), RESTART; SHOW DATABASES and read-back are checked after every event"
 	known := env.OpenKnown()
 	explore(env, rep, 0, func(c *lib.Ctx) {
 		if worldHome == "" {
@@ -327,7 +329,7 @@ func runC17(env *lib.Env, rep *lib.Report) {
 		w.sess = &Session{}
 		c.Logf("seed %s", seed)
 		if seed == "a-with-row+b" {
-			for _, name := range []string{"CREATE DATABASE a", "CREATE DATABASE b", "USE a", "CREATE TABLE t", "INSERT"} {
+			for _, name := range []string{"CREATE DATABASE a", "CREATE DATABASE B", "USE a", "CREATE TABLE t", "INSERT"} {
 				for _, e := range w.events() {
 					if e.name == name {
 						c.Logf("%s", e.name)
